@@ -17,6 +17,34 @@ import GoluaVerif.Model.ClonePool
 namespace GoluaVerif.Model.GcRuntime
 open GoluaVerif.Spec.Gc GoluaVerif.Model.ClonePool
 
+/-- `GCPolicy` of a `RuntimeContextDef` -/
+inductive GCPolicy where
+  | default | share | isolate
+deriving DecidableEq, Repr
+
+/-- the part of a `RuntimeContextDef` that decides about the pool: which hard limits are set, and the GC policy -/
+structure CtxDef where
+  cpu : Bool := false
+  mem : Bool := false
+  millis : Bool := false
+  policy : GCPolicy := .default
+deriving DecidableEq, Repr
+
+/-- mirror of the condition in `runtimeContextManager.PushContext`: the new context gets its OWN pool
+    (`IsolateGCPolicy`) iff the policy asks for it or ANY hard limit (cpu, memory, time) is set;
+    otherwise it shares its parent's pool -/
+def isolates (d : CtxDef) : Bool :=
+  d.policy == .isolate || d.millis || d.cpu || d.mem
+
+/-- mirror of `(*UserData).MarkFlags` (runtime/userdata.go): (Finalize, Release).  Release iff the wrapped Go
+    value implements `UserDataResourceReleaser` — whatever the metatable, even none; Finalize iff the
+    metatable (if any) has a non-nil `__gc` -/
+def userDataMarkFlags (releasable hasMeta hasGc : Bool) : Bool × Bool :=
+  (hasMeta && hasGc, releasable)
+
+/-- mirror of `SetRawMetatable` for tables: marked for finalisation iff the metatable has `__gc` -/
+def tableMarkFlags (hasGc : Bool) : Bool × Bool := (hasGc, false)
+
 structure Rt where
   /-- pools of the isolating contexts, innermost first; the last one is the root's and is never removed -/
   live : List Pool := [{}]
@@ -25,6 +53,17 @@ structure Rt where
   /-- finalisations (`fin`) and releases (`rel`) performed, in order -/
   log : List TEv := []
   fatal : Bool := false
+  /-- all contexts pushed on the root, innermost first: does the context own a pool? -/
+  frames : List Bool := []
+  /-- for each event of `log`: the number of contexts that were open when it ran (WHERE it ran) -/
+  ran : List Nat := []
+  /-- marking epochs (pool id, markOrder) whose `__gc` raises an error: the clone kept by the pool has the
+      metatable the value had when it was marked -/
+  raising : List (Nat × Nat) := []
+  /-- for each event of `log`: did that finaliser raise? -/
+  raised : List Bool := []
+  /-- `error in finalizer` warnings issued, in order (keys) -/
+  warned : List Nat := []
 deriving Repr
 
 def isLogEv : TEv → Bool
@@ -35,13 +74,28 @@ def isLogEv : TEv → Bool
 /-- what a pool operation added to the pool's trace -/
 def delta (p p' : Pool) : List TEv := p'.tr.drop p.tr.length
 
-/-- apply a pool operation to the current (innermost) pool -/
-def onCurrent (s : Rt) (u : Use) : Rt :=
+/-- mirror of the loop of `(*Runtime).runFinalizers`: EVERY value of the batch has its `__gc` called;
+    when one raises, a warning is issued and the loop goes on.  Returns what was run and the warnings.
+    (Releases, which are not run by this loop, are passed through.) -/
+def runFinalizers (raises : Nat → Bool) : List TEv → List TEv × List Nat
+  | [] => ([], [])
+  | e :: t =>
+    let r := runFinalizers raises t
+    match e with
+    | .fin _ v n => (e :: r.1, if raises n then v.key :: r.2 else r.2)
+    | _ => (e :: r.1, r.2)
+
+/-- apply a pool operation to the current (innermost) pool; what it hands out runs at `depth` -/
+def onCurrent (s : Rt) (u : Use) (depth : Nat := s.frames.length) : Rt :=
   match s.live with
   | [] => s
   | p :: rest =>
     let p' := use p u
-    { s with live := p' :: rest, log := s.log ++ (delta p p').filter isLogEv, fatal := s.fatal || p'.fatal }
+    let raises := fun n => s.raising.contains (p.pid, n)
+    let out := runFinalizers raises ((delta p p').filter isLogEv)
+    { s with live := p' :: rest, log := s.log ++ out.1, ran := s.ran ++ out.1.map (fun _ => depth),
+             raised := s.raised ++ out.1.map (fun e => match e with | .fin _ _ n => raises n | _ => false),
+             warned := s.warned ++ out.2, fatal := s.fatal || p'.fatal }
 
 def wouldRegister (p : Pool) (o : Obj) : Bool :=
   match p.reg with
@@ -54,9 +108,17 @@ inductive Prim where
   | mark (o : Obj) (f r : Bool)
   | fire (o : Obj)
   | step
+  /-- `PushContext` with a definition that isolates: a fresh pool -/
   | push
   | finAll
+  /-- `PopContext` of the context that owns the current pool (any pool-sharing contexts above it go first) -/
   | popRel
+  /-- `PushContext` with a definition that does not isolate: the parent's pool is shared -/
+  | pushShare
+  /-- `PopContext` of a pool-sharing context: nothing happens to any pool -/
+  | popShare
+  /-- the metatable with which value `k` has just been marked in the current pool has a `__gc` that raises -/
+  | setRaise (k : Nat)
 deriving DecidableEq, Repr
 
 def prim (s : Rt) (e : Prim) : Rt :=
@@ -73,13 +135,28 @@ def prim (s : Rt) (e : Prim) : Rt :=
   | .fire o =>
     { s with live := s.live.map (fun p => use p (.fire o)), dead := s.dead.map (fun p => use p (.fire o)) }
   | .step => onCurrent s .step
-  | .push => { s with live := { pid := s.live.length + s.dead.length } :: s.live }
+  | .push => { s with live := { pid := s.live.length + s.dead.length } :: s.live, frames := true :: s.frames }
   | .finAll => onCurrent s .finAll
   | .popRel =>
-    let s1 := onCurrent s .popRel
-    match s1.live with
-    | p :: q :: rest => { s1 with live := q :: rest, dead := p :: s1.dead }
-    | _ => s1
+    -- the owner of the current pool is the innermost isolating frame; its releases run inside it
+    let fr := s.frames.dropWhile (fun b => b == false)
+    let s1 := onCurrent s .popRel fr.length
+    let s2 := { s1 with frames := fr.drop 1 }
+    match s2.live with
+    | p :: q :: rest => { s2 with live := q :: rest, dead := p :: s2.dead }
+    | _ => s2
+  | .pushShare => { s with frames := false :: s.frames }
+  | .popShare =>
+    match s.frames with
+    | false :: fs => { s with frames := fs }
+    | _ => s
+  | .setRaise k =>
+    match s.live with
+    | p :: _ =>
+      match (p.reg.getD []).find? (fun e => e.val.key == k) with
+      | some e => { s with raising := (p.pid, e.order) :: s.raising }
+      | none => s
+    | [] => s
 
 /-- `Runtime.Close` with `n` contexts still to close -/
 def closeN : Nat → Rt → Rt
@@ -88,6 +165,8 @@ def closeN : Nat → Rt → Rt
 
 inductive REv where
   | prim (e : Prim)
+  /-- `PushContext(def)` / the beginning of `CallContext(def, …)` -/
+  | pushCtx (d : CtxDef)
   | callDone
   | callKilled
   | close
@@ -95,6 +174,7 @@ deriving DecidableEq, Repr
 
 def rstep (s : Rt) : REv → Rt
   | .prim e => prim s e
+  | .pushCtx d => prim s (if isolates d then .push else .pushShare)
   | .callDone => prim (prim s .finAll) .popRel
   | .callKilled => prim s .popRel
   | .close => closeN s.live.length s
